@@ -1,6 +1,7 @@
-(* C09 — computed witnesses: where the faithful model violates the full-strength
-   statements.  Each witness is replayed on the Go code by the driver (kinds
-   window-*, unreadable, sreadloss, collide, carry) and listed in KNOWN_FINDINGS.txt. *)
+(* C09 — computed witnesses on the model of the REPAIRED code (1f61a03): the one place where the
+   full-strength statement still fails (restart window while the revocation is recorded only as a
+   StateRevoked marker; replayed on the Go code by the driver, kind window-marker-only), and the
+   scenarios of the six repaired defects, which now behave as the property demands. *)
 From Sdns Require Import Common.Base Gen.C09 C09.Model.
 Open Scope N_scope.
 
@@ -24,107 +25,63 @@ Definition s0 (tag : key -> N) : sys :=
 Definition rev_fetch (tag : key -> N) : fetch := FResp [kA'; kB] [sg tag kA'; sg tag kB].
 Definition plain_fetch (tag : key -> N) : fetch := FResp [kB] [sg tag kB].
 
-(* F2 — restart window: the revocation of A was accepted and BOTH files landed; after a
-   restart with the unchanged configuration A is a live trust anchor again (until AutoTA runs) *)
-Lemma revocation_permanent_refuted_restart_window :
-  exists tag s now fe fl h key,
-    In 1 (r_revoked (run_of tag s now fe fl)) /\ length (r_writes (run_of tag s now fe fl)) = 2%nat /\
-    In key (s_live (exec tag (step tag s (ERun now fe fl)) h)) /\ k_mat key = 1.
-Proof.
-  exists tag_inj, (s0 tag_inj), 10%Z, (rev_fetch tag_inj), no_faults, [ERestart [kA; kB]], kA.
-  vm_compute. repeat split; auto.
-Qed.
-
-(* the same run; later the tombstone file cannot be opened (not ENOENT, not a decode error):
-   a COMPLETED run publishes A again *)
-Lemma revocation_permanent_refuted_unreadable_tombstones :
-  exists tag s now fe fl now' fe' fl' key,
-    In 1 (r_revoked (run_of tag s now fe fl)) /\ length (r_writes (run_of tag s now fe fl)) = 2%nat /\
-    f_tread fl' = TRUnreadable /\
-    In key (s_live (exec tag (step tag s (ERun now fe fl)) [ERun now' fe' fl'])) /\ k_mat key = 1.
-Proof.
-  exists tag_inj, (s0 tag_inj), 10%Z, (rev_fetch tag_inj), no_faults, 20%Z, FErr, (mk_faults false TRUnreadable false false), kA.
-  vm_compute. repeat split; auto.
-Qed.
-
-(* ... and when that run's fetch succeeds, the tombstone is overwritten: A stays trusted for good *)
-Lemma revocation_lost_after_unreadable_tombstones :
-  exists tag s now fe fl now' fe' fl' key,
-    In 1 (r_revoked (run_of tag s now fe fl)) /\
-    f_tread fl' = TRUnreadable /\
-    let s2 := exec tag (step tag s (ERun now fe fl)) [ERun now' fe' fl'; ERun (now' + 1)%Z fe' no_faults] in
-    In key (s_live s2) /\ k_mat key = 1 /\ d_tomb (s_disk s2) = Some [].
-Proof.
-  exists tag_inj, (s0 tag_inj), 10%Z, (rev_fetch tag_inj), no_faults, 20%Z, (plain_fetch tag_inj), (mk_faults false TRUnreadable false false), kA.
-  vm_compute. repeat split; auto.
-Qed.
-
-(* the tombstone write failed, the StateRevoked marker landed (one record persisted); the next
-   run cannot read the state file: A comes back from the configuration and the marker is overwritten *)
-Lemma revocation_permanent_refuted_state_read_fault :
-  exists tag s now fe fl now' fe' fl' key,
+(* RESIDUAL — restart window with a marker-only record: the tombstone write failed, the state file
+   landed with the StateRevoked marker (one record persisted).  NewResolver filters the configured
+   keys through the tombstone file only, so after a restart A is live until the first AutoTA run. *)
+Lemma revocation_permanent_refuted_marker_only_window :
+  exists tag s now fe fl cfg' key,
     In 1 (r_revoked (run_of tag s now fe fl)) /\ length (r_writes (run_of tag s now fe fl)) = 1%nat /\
-    f_sread fl' = true /\ f_tread fl' = TROk /\
-    let s2 := exec tag (step tag s (ERun now fe fl)) [ERun now' fe' fl'; ERun (now' + 1)%Z fe' no_faults] in
-    In key (s_live s2) /\ k_mat key = 1.
+    let s' := exec tag (step tag s (ERun now fe fl)) [ERestart cfg' TROk] in
+    In key (s_live s') /\ k_mat key = 1 /\
+    (* and the next run removes it again: the record itself is never lost *)
+    ~ In key (s_live (step tag s' (ERun (now + 1)%Z FErr no_faults))).
 Proof.
-  exists tag_inj, (s0 tag_inj), 10%Z, (rev_fetch tag_inj), (mk_faults false TROk true false),
-         20%Z, (plain_fetch tag_inj), (mk_faults true TROk false false), kA.
-  vm_compute. repeat split; auto.
+  exists tag_inj, (s0 tag_inj), 10%Z, (rev_fetch tag_inj), (mk_faults false TROk true false), [kA; kB], kA.
+  vm_compute. repeat split; auto. intros [H|[]]. discriminate.
 Qed.
 
-(* F4 — presence is tested by key tag: B (material 2) is seen once, then replaced by the
-   colliding key C (material 3); B ages to Valid without being present in the accepted refreshes *)
+(* F2 repaired: both files landed; a restart with the stale configuration does not trust A *)
+Example restart_window_closed :
+  let s1 := step tag_inj (s0 tag_inj) (ERun 10%Z (rev_fetch tag_inj) no_faults) in
+  s_live (step tag_inj s1 (ERestart [kA; kB] TROk)) = [kB] /\
+  s_live (step tag_inj s1 (ERestart [kA; kB] TRUnreadable)) = [].
+Proof. vm_compute. auto. Qed.
+
+(* unreadable tombstones / unreadable state file now fail closed and lose nothing *)
+Example unreadable_stores_fail_closed :
+  let s1 := step tag_inj (s0 tag_inj) (ERun 10%Z (rev_fetch tag_inj) (mk_faults false TROk true false)) in   (* marker only *)
+  let s2 := step tag_inj s1 (ERun 20%Z (plain_fetch tag_inj) (mk_faults true TROk false false)) in           (* state unreadable *)
+  let s3 := step tag_inj s2 (ERun 21%Z (plain_fetch tag_inj) (mk_faults false TRUnreadable false false)) in  (* tombstones unreadable *)
+  let s4 := step tag_inj s3 (ERun 22%Z (plain_fetch tag_inj) no_faults) in
+  s_live s2 = [] /\ s_disk s2 = s_disk s1 /\ s_live s3 = [] /\ s_disk s3 = s_disk s1 /\
+  s_live s4 = [kB] /\ d_tomb (s_disk s4) = Some [(1, mk_tomb kA 10%Z)].
+Proof. vm_compute. repeat split; reflexivity. Qed.
+
+(* F4 repaired: presence is by material — under the colliding tag function B (seen once, then
+   replaced by the colliding C) is dropped from the add hold-down instead of ageing to Valid *)
 Definition fetch_with (tag : key -> N) (k : key) : fetch := FResp [kA; k] [sg tag kA].
 Definition coll_history : list event :=
   [ ERun 0 (FResp [kA] [sg tag_coll kA]) no_faults;
     ERun 0 (fetch_with tag_coll kB) no_faults;
     ERun (10 * day) (fetch_with tag_coll kC) no_faults;
     ERun (31 * day) (fetch_with tag_coll kC) no_faults ].
-Definition contains_mat (m : N) (e : event) : bool :=
-  match e with ERun _ (FResp keys _) _ => existsb (fun k => k_mat k =? m) keys | _ => false end.
-
-Lemma new_key_needs_30d_refuted :
-  exists tag cfg h key,
-    let s := exec tag (mk_sys cfg cfg empty_disk) h in
-    (* every event is a complete, fault-free run fully authenticated by the configured anchor *)
-    forallb (fun e => match e with ERun _ (FResp _ sigs) fl => existsb (fun g => s_ok g && (s_mat g =? 1)) sigs | _ => false end) h = true /\
-    ~ In key cfg /\ In key (s_live s) /\
-    (* the key's material was in exactly one of the four accepted refreshes *)
-    length (filter (contains_mat (k_mat key)) h) = 1%nat /\ length h = 4%nat.
-Proof.
-  exists tag_coll, [kA], coll_history, kB. vm_compute. repeat split; auto.
-  intros [H|[]]. discriminate.
-Qed.
-
-(* with an injective tag the same publications abort the add hold-down *)
-Example new_key_collision_needed :
-  let s := exec tag_inj (mk_sys [kA] [kA] empty_disk)
-             [ ERun 0 (FResp [kA] [sg tag_inj kA]) no_faults; ERun 0 (fetch_with tag_inj kB) no_faults;
-               ERun (10 * day) (fetch_with tag_inj kC) no_faults; ERun (31 * day) (fetch_with tag_inj kC) no_faults ] in
-  s_live s = [kA].
+Example collision_aborts_hold_down :
+  s_live (exec tag_coll (mk_sys [kA] [kA] empty_disk) coll_history) = [kA].
 Proof. vm_compute. reflexivity. Qed.
 
-(* the revoked form's tag is tag + 129: the `tag - 0x80` lookups miss the anchor, the valid,
-   self-signed, co-signed revocation is ignored and A stays in the trust set *)
-Lemma revocation_ignored_when_tag_carries :
-  exists tag s now fe,
-    (forall k, tag (mk_key (k_mat k) (N.lor (k_flags k) 128)) = tag k + 128 \/ tag (mk_key (k_mat k) (N.lor (k_flags k) 128)) = tag k + 129 \/ N.land (k_flags k) 128 <> 0) /\
-    let r := run_of tag s now fe no_faults in
-    r_out r = OSuccess /\ r_revoked r = [] /\ In kA (r_live r).
-Proof.
-  exists tag_carry, (s0 tag_carry), 10%Z, (rev_fetch tag_carry). split.
-  - intros [m f]. unfold tag_carry. cbn [k_mat k_flags].
-    destruct (N.land f 128 =? 0) eqn:E.
-    + assert (H : N.land (N.lor f 128) 128 =? 0 = false).
-      { apply N.eqb_neq. intros H. apply (f_equal (fun x => N.testbit x 7)) in H.
-        rewrite N.land_spec, N.lor_spec in H. cbn in H. rewrite orb_true_r in H. discriminate. }
-      rewrite H. destruct (m =? 1); [right; left|left]; lia.
-    + right. right. apply N.eqb_neq. exact E.
-  - vm_compute. repeat split; auto.
-Qed.
+(* carry repaired: the revoked form's tag is tag + 129 and the revocation is accepted all the same *)
+Example revocation_accepted_when_tag_carries :
+  let r := run_of tag_carry (s0 tag_carry) 10%Z (rev_fetch tag_carry) no_faults in
+  tag_carry kA' = tag_carry kA + 129 /\ r_revoked r = [1] /\ r_live r = [kB].
+Proof. vm_compute. auto. Qed.
 
-(* satisfiability of the premises of revocation_permanent_partial: the accepting run exists *)
+(* configured REVOKE-flagged form: the Valid state entry leaves the trust set in the same run *)
+Example configured_revoked_form_applies_at_once :
+  let s1 := step tag_inj (s0 tag_inj) (ERestart [kA'; kB] TROk) in
+  s_live s1 = [kB] /\ s_live (step tag_inj s1 (ERun 10%Z FErr no_faults)) = [kB].
+Proof. vm_compute. auto. Qed.
+
+(* satisfiability of the premises of revocation_permanent: the accepting run exists *)
 Example accepting_run_exists :
   In 1 (r_revoked (run_of tag_inj (s0 tag_inj) 10%Z (rev_fetch tag_inj) no_faults)) /\
   r_live (run_of tag_inj (s0 tag_inj) 10%Z (rev_fetch tag_inj) no_faults) = [kB].
